@@ -1,0 +1,69 @@
+//! Observation points for the external verification harness.
+//!
+//! Compiled only with `--cfg nervusdb_verif`. Without an installed observer every
+//! function here returns immediately, so behaviour is unchanged.
+//!
+//! * `point(name)`: a named schedule point. The observer may block the calling
+//!   thread (a deterministic scheduler releases one thread at a time).
+//! * `acquire(lock)`: reported just before a named lock is requested, together
+//!   with the locks the calling thread already holds; the returned token marks the
+//!   lock as held until it is dropped.
+//! * `touch(lock)`: an acquisition whose guard is a temporary.
+use std::cell::RefCell;
+use std::sync::{Arc, RwLock};
+
+pub enum Event<'a> {
+    Point(&'static str),
+    Acquire {
+        lock: &'static str,
+        held: &'a [&'static str],
+    },
+}
+
+pub type Observer = Arc<dyn for<'a> Fn(Event<'a>) + Send + Sync>;
+
+static OBSERVER: RwLock<Option<Observer>> = RwLock::new(None);
+
+thread_local! {
+    static HELD: RefCell<Vec<&'static str>> = const { RefCell::new(Vec::new()) };
+}
+
+pub fn set_observer(observer: Option<Observer>) {
+    *OBSERVER.write().unwrap() = observer;
+}
+
+fn observer() -> Option<Observer> {
+    OBSERVER.read().unwrap().clone()
+}
+
+pub fn point(name: &'static str) {
+    if let Some(obs) = observer() {
+        obs(Event::Point(name));
+    }
+}
+
+pub struct Held(&'static str);
+
+pub fn acquire(lock: &'static str) -> Held {
+    if let Some(obs) = observer() {
+        let held: Vec<&'static str> = HELD.with(|h| h.borrow().clone());
+        obs(Event::Acquire { lock, held: &held });
+    }
+    HELD.with(|h| h.borrow_mut().push(lock));
+    Held(lock)
+}
+
+pub fn touch(lock: &'static str) {
+    drop(acquire(lock));
+}
+
+impl Drop for Held {
+    fn drop(&mut self) {
+        let _ = HELD.try_with(|h| {
+            let mut h = h.borrow_mut();
+            if let Some(pos) = h.iter().rposition(|l| *l == self.0) {
+                h.remove(pos);
+            }
+        });
+    }
+}
